@@ -183,7 +183,7 @@ func runProto(c ProtoCase, ev *pbt.Ev) error {
 }
 
 func TestProp_Proto(t *testing.T) {
-	pbt.Run(t, pbt.Options{Prop: "C04", Name: "Proto", Quick: 4000, Thorough: 600000, Current: true, Timeout: 60 * time.Second,
+	pbt.Run(t, pbt.Options{Prop: "C04", Name: "Proto", Quick: 4000, Thorough: 48000, Current: true, Timeout: 60 * time.Second,
 		Rule: "rapid: a scripted registry answers each of the first 0-8 HTTP requests of Resolve / ReadAt / Cache / Check / Refresh with a reply drawn from a hostile grammar: any status, Content-Range unparsable / begin>end / beyond size / unaligned / overflowing int64, multipart bodies with missing, duplicated, " +
 			"short or header-less parts and broken boundaries, wrong or missing Content-Length, short bodies, 3xx without or with a bad Location, connection errors and stalls; oracle: every call returns (value|error), no panic / fatal error / hang. non-trivial = at least one hostile reply was served",
 	}, genProto, runProto)
